@@ -64,3 +64,22 @@ check("C02",
       "table and every children/parents answer. Each file is imported by the code and all answers compared; random forests up to 60 features go through the same "
       "model (Gen_DB) and are compared row by row.",
       TB, "TLA+ state-machine spec (GffDB) + TLC exhaustive graphs x line orders + spec-generated files replayed on the code + model trajectories for random forests (Gen_DB)")
+
+check("C04",
+      "GffDB!DeriveId/TryItems transcribe create.py _id_handler for every id_spec form (string, list, dict of string/list, ':field:', callables from a fixed menu, "
+      "fall-through to the per-featuretype counter) and MC_DB04 checks the declarative reading - keys unique, first listed attribute present with a value, "
+      "'<featuretype>_<n>' numbering per type in input order, multi-valued id attribute rejected, persisted counters - for 1..2 (quick) / 3 (thorough) features x 13 "
+      "spec forms. Every printed case is imported from Feature objects and compared row by row (keys, attributes, counters), db[key], db[feature] and absent keys are "
+      "probed; random feature lists x 7 more specs run through the model (Gen_DB).",
+      TB + "Callables come from a fixed menu mirrored in Python.",
+      "TLA+ state-machine spec (GffDB) + TLC invariants over features x id_spec forms + spec-generated cases replayed on the code + model trajectories for random inputs")
+
+check("C05",
+      "GffDB!Collide transcribes _do_merge/_candidate_merges/_add_duplicate and the relation insertion that follows; MC_DB05 restates each strategy declaratively from "
+      "the ARRIVALS (classes of equal non-exempt columns in order of first arrival, unions as sets, comma-joined sets for exempt columns, links = Parent values of what "
+      "is kept, at-most-one-candidate lemma) and TLC checks the algorithm against it for every sequence of <= 3 colliding features x 5 strategies x force_merge_fields x "
+      "split between create_db and update (180k-270k states). Each named deviation is model-checked switched on and must break its invariant. One case in 19 (quick) / 3 "
+      "(thorough) and random longer histories on file databases are executed on the code and compared row by row; mismatches are judged a second time with the known "
+      "deviation F4 enabled.",
+      TB + "Attribute values/keys of merged features are compared as sets. Known finding F4_ReplaceKeepsStaleLinks.",
+      "TLA+ state-machine spec (GffDB) + TLC alg-vs-decl invariants per strategy + deviation actions for known findings + model trajectories compared with real databases")
